@@ -228,6 +228,7 @@ Record inv_concl (ev : env) (first : N) (all : list entry) (nrest : nat) (g : N)
     ic_ok : o_res out = COk -> ls_ents (o_dst out) = all /\ o_gets out = g + N.of_nat nrest;
     ic_nofuel : o_res out <> COutOfFuel;
     ic_nofirst : o_res out <> CErrFirst;
+    ic_nolast : o_res out <> CErrLast;
     ic_nostore : store_fail ev = None -> o_res out <> CErrStore;
     ic_noget : get_fail ev = None -> o_res out <> CErrGet;
     ic_nocancel : cancel_at ev = None -> o_res out <> CCanceled }.
@@ -295,7 +296,7 @@ Proof.
     { cbn [rev]. rewrite <- app_assoc. exact Hall. }
     assert (Hcount : forall out, inv_concl ev first all (length r) (g + 1) out ->
                                  inv_concl ev first all (length (e :: r)) g out).
-    { intros out [H1 H2 H3 H4 H5 H6 H7 H8 H9 H10]. constructor; auto.
+    { intros out [H1 H2 H3 H4 H5 H6 H7 H7' H8 H9 H10]. constructor; auto.
       intros H. destruct (H5 H) as [Ha Hb]. split; auto. cbn [length]. lia. }
     destruct (bb <=? bsize + Z.of_N (len (e_data e)) + 32)%Z.
     + pose proof (flush_spec ev first all dst bs (e :: batch_rev) r Hidx Hall' Hfirst Hrep) as HF.
@@ -360,10 +361,10 @@ Qed.
 (* ---- top level -------------------------------------------------------------- *)
 Lemma copy_body_list : forall ev bb src dst,
   wf_store src -> ls_ents src <> [] ->
-  copy_logs_body ev bb src dst = copy_list ev bb (ls_ents src) 0 [] 0%Z dst [] 0.
+  copy_logs_core ev bb src dst = copy_list ev bb (ls_ents src) 0 [] 0%Z dst [] 0.
 Proof.
   intros ev bb src dst (Hidx & Hone & Hlt) Hne.
-  unfold copy_logs_body, first_index, last_index.
+  unfold copy_logs_core, first_index, last_index.
   destruct (ls_ents src) as [|x l] eqn:E; [congruence|].
   specialize (Hone Hne).
   replace ((ls_first src =? 0) && (ls_first src + ls_len src - 1 =? 0)) with false.
@@ -402,9 +403,10 @@ Theorem copy_logs_faithful : forall src bb p,
   r_gets r = ls_len src.
 Proof.
   intros src bb p Hwf. cbn zeta. unfold copy_logs, run_deferred. cbn [r_res r_dst r_batches r_gets].
+  change (copy_logs_body (no_faults p) bb src empty_store) with (copy_logs_core (no_faults p) bb src empty_store).
   destruct (ls_ents src) as [|x l] eqn:E.
   - (* empty source: early return *)
-    unfold copy_logs_body, first_index, last_index, ls_len. rewrite E. cbn.
+    unfold copy_logs_core, first_index, last_index, ls_len. rewrite E. cbn.
     split; [reflexivity|]. split; [apply same_log_of_ents; cbn; congruence|].
     repeat split; auto.
   - assert (Hne : ls_ents src <> []) by (rewrite E; discriminate).
@@ -412,7 +414,7 @@ Proof.
     destruct Hwf as (Hidx & Hone & Hlt).
     pose proof (copy_list_inv (ls_ents src) (no_faults p) bb (ls_first src) (ls_ents src) 0 [] 0%Z
                   empty_store [] 0 Hidx eq_refl) as HI.
-    destruct HI as [H1 H2 H3 H4 H5 H6 H7 H8 H9 H10]; cbn; auto; try congruence.
+    destruct HI as [H1 H2 H3 H4 H5 H6 H7 H7' H8 H9 H10]; cbn; auto; try congruence.
     set (out := copy_list (no_faults p) bb (ls_ents src) 0 [] 0%Z empty_store [] 0) in *.
     assert (Hok : o_res out = COk).
     { specialize (H8 eq_refl). specialize (H9 eq_refl). specialize (H10 eq_refl).
@@ -441,8 +443,9 @@ Proof.
     rewrite (G _ _ _ H3 HF). reflexivity.
 Qed.
 
-(* any cancellation point, any injected fault: the destination holds a prefix
-   of the source, written by acceptable batches; Ok only with the full copy *)
+(* any cancellation point, any injected fault (including a source whose
+   FirstIndex/LastIndex fails): the destination holds a prefix of the source,
+   written by acceptable batches; Ok only with the full copy *)
 Theorem copy_logs_prefix : forall src bb ev,
   wf_store src ->
   let r := copy_logs ev bb src empty_store in
@@ -450,12 +453,21 @@ Theorem copy_logs_prefix : forall src bb ev,
   (ls_ents (r_dst r) <> [] -> ls_first (r_dst r) = ls_first src) /\
   replay empty_store (r_batches r) = Some (r_dst r) /\
   (r_res r = COk -> same_log (r_dst r) src) /\
-  r_res r <> COutOfFuel /\ r_res r <> CErrFirst /\
+  r_res r <> COutOfFuel /\
+  (first_fail ev = false -> r_res r <> CErrFirst) /\
+  (last_fail ev = false -> r_res r <> CErrLast) /\
   (cancel_at ev = None -> r_res r <> CCanceled).
 Proof.
   intros src bb ev Hwf. cbn zeta. unfold copy_logs, run_deferred. cbn [r_res r_dst r_batches].
+  unfold copy_logs_body.
+  destruct (first_fail ev) eqn:EF.
+  { cbn. split; [exists 0%nat; reflexivity|]. split; [congruence|]. split; [reflexivity|].
+    repeat split; try discriminate. }
+  destruct (last_fail ev) eqn:EL.
+  { cbn. split; [exists 0%nat; reflexivity|]. split; [congruence|]. split; [reflexivity|].
+    repeat split; try discriminate. }
   destruct (ls_ents src) as [|x l] eqn:E.
-  - unfold copy_logs_body, first_index, last_index, ls_len. rewrite E. cbn.
+  - unfold copy_logs_core, first_index, last_index, ls_len. rewrite E. cbn.
     split; [exists 0%nat; reflexivity|]. split; [congruence|]. split; [reflexivity|].
     split; [intros _; apply same_log_of_ents; cbn; congruence|].
     repeat split; auto; discriminate.
@@ -464,29 +476,48 @@ Proof.
     destruct Hwf as (Hidx & Hone & Hlt).
     pose proof (copy_list_inv (ls_ents src) ev bb (ls_first src) (ls_ents src) 0 [] 0%Z
                   empty_store [] 0 Hidx eq_refl) as HI.
-    destruct HI as [H1 H2 H3 H4 H5 H6 H7 H8 H9 H10]; cbn; auto; try congruence.
+    destruct HI as [H1 H2 H3 H4 H5 H6 H7 H7' H8 H9 H10]; cbn; auto; try congruence.
     try rewrite <- E.
     split; [exact H1|]. split; [exact H2|]. split; [exact H3|].
-    split; [|auto].
+    split; [|auto 8].
     intros Hok. destruct (H5 Hok) as [He _]. apply same_log_of_ents; auto.
+Qed.
+
+(* a source whose FirstIndex (resp. LastIndex) fails: that error is returned,
+   nothing is read or written *)
+Theorem copy_logs_index_fault : forall src dst bb ev,
+  let r := copy_logs ev bb src dst in
+  (first_fail ev = true -> r_res r = CErrFirst /\ r_dst r = dst /\ r_batches r = [] /\ r_gets r = 0) /\
+  (first_fail ev = false -> last_fail ev = true ->
+     r_res r = CErrLast /\ r_dst r = dst /\ r_batches r = [] /\ r_gets r = 0) /\
+  r_closed r = has_progress ev.
+Proof.
+  intros src dst bb ev. cbn zeta. unfold copy_logs, run_deferred, copy_logs_body.
+  cbn [r_res r_dst r_batches r_gets r_closed].
+  split; [|split; [|reflexivity]].
+  - intros ->. cbn. auto.
+  - intros -> ->. cbn. auto.
 Qed.
 
 Theorem copy_logs_cancel_point : forall src bb p k,
   wf_store src ->
-  let ev := {| cancel_at := Some k; get_fail := None; store_fail := None; has_progress := p |} in
+  let ev := {| cancel_at := Some k; get_fail := None; store_fail := None;
+              first_fail := false; last_fail := false; has_progress := p |} in
   let r := copy_logs ev bb src empty_store in
   ((k < length (ls_ents src))%nat -> r_res r = CCanceled /\ r_gets r = N.of_nat k) /\
   ((length (ls_ents src) <= k)%nat -> r_res r = COk /\ same_log (r_dst r) src).
 Proof.
   intros src bb p k Hwf. cbn zeta.
-  set (ev := {| cancel_at := Some k; get_fail := None; store_fail := None; has_progress := p |}).
+  set (ev := {| cancel_at := Some k; get_fail := None; store_fail := None;
+              first_fail := false; last_fail := false; has_progress := p |}).
   pose proof (copy_logs_prefix src bb ev Hwf) as HP. cbn zeta in HP.
   destruct HP as (_ & _ & _ & Hsame & _).
   unfold copy_logs, run_deferred in *. cbn [r_res r_dst r_batches r_gets] in *.
+  change (copy_logs_body ev bb src empty_store) with (copy_logs_core ev bb src empty_store) in *.
   destruct (ls_ents src) as [|x l] eqn:E.
   - cbn [length]. split; [lia|]. intros _.
-    assert (Hr : o_res (copy_logs_body ev bb src empty_store) = COk).
-    { unfold copy_logs_body, first_index, last_index. rewrite E. reflexivity. }
+    assert (Hr : o_res (copy_logs_core ev bb src empty_store) = COk).
+    { unfold copy_logs_core, first_index, last_index. rewrite E. reflexivity. }
     split; auto.
   - assert (Hne : ls_ents src <> []) by (rewrite E; discriminate).
     rewrite (copy_body_list _ _ _ _ Hwf Hne) in *.
